@@ -15,7 +15,8 @@ def one_step(ctx, spec, u, what=None, tol=None):
     out_model = np.asarray(vals, dtype=float).reshape(out_impl.shape)
     nontrivial = bool(np.count_nonzero(u) >= 2)
     ctx.count(spec.cell(), nontrivial)
-    kw = {} if tol is None else {"rtol": tol}
+    # both sides evaluate exp(z) in binary64: agreement is relative to (1 + |z|) ulps
+    kw = {"rtol": (tol if tol is not None else 1e-9) + 4e-15 * spec.zmax()}
     ok = ctx.compare(what or f"{spec.name}.__call__ vs model fullstep", out_impl, out_model, cell=spec.cell(),
                      detail={"kwargs": {k: (v if isinstance(v, (int, float, bool, tuple)) else np.asarray(v).tolist())
                                         for k, v in spec.kwargs.items()},
